@@ -39,7 +39,7 @@ static void chaos_plan(Rng &rng, Plan &p, const std::string &prop) {
     if (prop == "C10" && rng.coin()) { static const long M[] = {1, 2, 8}; p.cfg.set("max_tx", M[rng.below(3)]); }
     int nconn = rng.chance(1, 6) ? (int) rng.range(2, 3) : 1;
     p.conns.resize((size_t) nconn);
-    GenFeatures f; f.bare_lf = true; f.wild_path = true; f.content_coding = true;
+    GenFeatures f; f.bare_lf = true; f.wild_path = true; f.wild_host = true; f.content_coding = true;
     std::vector<std::vector<Op>> per_conn((size_t) nconn);
     for (int c = 0; c < nconn; c++) {
         ConnPlan &cp = p.conns[(size_t) c];
@@ -208,7 +208,7 @@ static void c14_build(Rng &rng, Bytes &content_type, Bytes &body, std::vector<Pa
 static void c03_plan(Rng &rng, Plan &p, uint64_t variant) {
     p.prop = "C03"; p.scenario = "diff";
     wellformed_cfg(rng, p.cfg);
-    GenFeatures f; f.wild_path = true;
+    GenFeatures f; f.wild_path = true; f.wild_host = true;
     // invariance does not depend on the decoder configuration: draw every switch (the normalised URI is part of the comparison)
     if (rng.chance(1, 2)) { p.cfg.set("dec_swarm", (long) rng.below(1000000) + 1); p.cfg.set("dec_swarm_urlenc", rng.coin()); }
     int n = (int) rng.range(1, 4);
@@ -1257,7 +1257,7 @@ static void c18_plan(Rng &rng, Plan &p) {
         make_multipart_request(rng, q, rng.coin());   // half of them with the odd part headers / boundary parameters the parser special-cases
         MsgSpec r; r.is_request = false; r.status = 200; r.reason = "OK"; r.framing = FR_CL; { HeaderSpec h; h.name = "Content-Length"; h.value = "0"; r.headers.push_back(h); }
         s.req.push_back(q); s.res.push_back(r); build_conn_from_script(rng, s, cp, false);
-    } else { GenFeatures f; f.wild_path = true; f.content_coding = true; Script s = random_script(rng, f, (int) rng.range(1, 5), 0); build_conn_from_script(rng, s, cp, false); }
+    } else { GenFeatures f; f.wild_path = true; f.wild_host = true; f.content_coding = true; Script s = random_script(rng, f, (int) rng.range(1, 5), 0); build_conn_from_script(rng, s, cp, false); }
     for (auto &x : cp.xchg) x.expect.clear();
     if (ops.empty() || rng.coin()) {
         ops.clear();
@@ -1408,7 +1408,7 @@ static void c19_plan(Rng &rng, Plan &p) {
     int nconn = (int) rng.range(2, 8);
     p.conns.resize((size_t) nconn);
     std::vector<std::vector<Op>> per((size_t) nconn);
-    GenFeatures f; f.wild_path = true; f.content_coding = true;
+    GenFeatures f; f.wild_path = true; f.wild_host = true; f.content_coding = true;
     for (int c = 0; c < nconn; c++) {
         ConnPlan &cp = p.conns[(size_t) c];
         int src = (int) rng.below(10);
